@@ -54,6 +54,11 @@ func isUniverse(target string) bool {
 // rawU decodes without recovering.
 func rawU(f []string) string {
 	e := envOf(f[1])
+	if e.Err != nil || e.Schema == nil || zeroWidthSlice(e.Schema) {
+		// never generated (genUniverse leaves these universes out); the guard keeps a replayed or hand-written request
+		// away from the known zero-width defect
+		return "err"
+	}
 	dst := reflect.New(e.Top)
 	n, err := e.API.Decode(context.Background(), hx.UnHex(f[3]), dst.Interface(), e.Opts(f[2] == "1")...)
 	if err != nil {
@@ -158,6 +163,7 @@ func genUniverseJSON(rng *hx.Rng, tok string, emit func(string, string)) bool {
 	if !usable {
 		return false
 	}
+	text = []byte(canonJSON(text)) // object keys sorted: the request line must not depend on the iteration order of a Go map
 	emit(fmt.Sprintf("jx %s %d %s", tok, rng.Intn(2), hx.Hex(text)), "universe-json:valid")
 	var tree any
 	if json.Unmarshal(text, &tree) != nil {
